@@ -134,7 +134,7 @@ class Minimiser:
         self.tried += 1
         path = os.path.join(self.scratch, "cand-%d.json" % self.tried)
         json.dump(plan, open(path, "w"))
-        res, _, err = run_bin(self.binary, ["-sim.replay", path], 60, self.scratch)
+        res, _, err = run_bin(self.binary, ["-sim.replay", path, "-sim.known", os.path.join(V, "known_findings.json")], 60, self.scratch)
         try:
             os.unlink(path)
         except OSError:
@@ -279,7 +279,7 @@ def run_check(a, prop, tier, seed, spec, scratch, t_start):
         if left <= 0.5:
             return None
         args = ["-sim.prop", prop, "-sim.seed", str(seed), "-sim.first", str(first), "-sim.runs", str(n), "-sim.tier", tier,
-                "-sim.out", plans_dir, "-sim.recheck", "50", "-sim.budget", "%ds" % max(1, int(left))]
+                "-sim.out", plans_dir, "-sim.known", os.path.join(V, "known_findings.json"), "-sim.recheck", "50", "-sim.budget", "%ds" % max(1, int(left))]
         res, tail, err = run_bin(binary, args, left + 120, scratch)
         return (ch, res, tail, err)
 
